@@ -2,6 +2,8 @@
 import NxsModel.Requests
 import NxsModel.Spec.Wire
 import NxsModel.Lemmas.Serial
+import NxsModel.Lemmas.Accept
+import NxsModel.Lemmas.Pad
 namespace Nxs.Requests
 open Nxs Nxs.Spec Gen.Ids
 
@@ -390,5 +392,51 @@ theorem allSame_eq_replicate {α : Type} [DecidableEq α] (v : α) (vs : List α
   rw [List.replicate_succ]
   congr 1
   exact List.eq_replicate_iff.mpr ⟨rfl, h⟩
+
+/-! ### through the frame layer and the dispatcher (for the `request_reaches_decoder_*` theorems of C05) -/
+
+/-- a wire frame starts with the start byte -/
+theorem req_hdrFind_wire (fid : Nat) (p : Bytes) : Serial.hdrFind (wire fid p) = some 0 := by
+  unfold Serial.hdrFind
+  have : wire fid p = (0x55 : Byte) :: ((wire fid p).drop 1) := rfl
+  rw [this]
+  simp [List.findIdx_cons, Gen.Frame.sof]
+
+/-- the dispatcher, given a wire frame, hands id and payload to the callback table -/
+theorem req_recvHandle_wire (fid : Nat) (p : Bytes) (hp : p.length ≤ 65529) (hf : fid ≤ 8) :
+    Dispatch.recvHandle (wire fid p) = Dispatch.cbHandle fid p := by
+  rw [Dispatch.recvHandle_eq, req_hdrFind_wire]
+  show (match Serial.frameDecode ((wire fid p).drop 0) with
+    | .ok fr => Dispatch.cbHandle fr.fid fr.data
+    | .error _ => Dispatch.Disp.ignored) = _
+  rw [List.drop_zero, Serial.frameDecode_wire fid p hp hf]
+
+/-- … also when the interface appended its write padding -/
+theorem req_recvHandle_aligned (pad fid cb : Nat) (p : Bytes) (hp : p.length ≤ 65529) (hf : fid ≤ 8)
+    (hcb : Dispatch.cbHandle fid p = .fired cb p) :
+    Dispatch.recvHandle (Pad.dataAlign pad (wire fid p)) = .fired cb p := by
+  have h := req_recvHandle_wire fid p hp hf
+  rw [hcb] at h
+  rw [Pad.recvHandle_dataAlign pad _ (by rw [h]; exact fun h' => nomatch h'), h]
+
+theorem req_cb_cmninfo : Dispatch.cbHandle 2 [] = .fired 0 [] := by decide
+theorem req_cb_chinfo (c : Byte) : Dispatch.cbHandle 3 [c] = .fired 1 [c] := by
+  simp [Dispatch.cbHandle, Gen.Recv.cbTable, Gen.Ids.idCMNINFO, Gen.Ids.idCHINFO, List.find?]
+theorem req_cb_start (b : Byte) : Dispatch.cbHandle 5 [b] = .fired 4 [b] := by
+  simp [Dispatch.cbHandle, Gen.Recv.cbTable, Gen.Ids.idCMNINFO, Gen.Ids.idCHINFO, Gen.Ids.idSTART, List.find?]
+theorem req_cb_enable (p : Bytes) (h : p ≠ []) : Dispatch.cbHandle 6 p = .fired 2 p := by
+  have : p.length ≠ 0 := by simpa using h
+  simp [Dispatch.cbHandle, Gen.Recv.cbTable, Gen.Ids.idCMNINFO, Gen.Ids.idCHINFO, Gen.Ids.idSTART, Gen.Ids.idENABLE,
+    List.find?, this]
+theorem req_cb_div (p : Bytes) (h : p ≠ []) : Dispatch.cbHandle 7 p = .fired 3 p := by
+  have : p.length ≠ 0 := by simpa using h
+  simp [Dispatch.cbHandle, Gen.Recv.cbTable, Gen.Ids.idCMNINFO, Gen.Ids.idCHINFO, Gen.Ids.idSTART, Gen.Ids.idENABLE,
+    Gen.Ids.idDIV, List.find?, this]
+
+/-- storing a decoded vector of the device's length by per-channel writes makes it the state -/
+theorem storeVec_full {α : Type} (cur decoded : List α) (h : decoded.length = cur.length) :
+    storeVec cur decoded = decoded := by
+  unfold storeVec
+  rw [← h, List.take_length, List.drop_eq_nil_of_le (by omega), List.append_nil]
 
 end Nxs.Requests
